@@ -9,7 +9,6 @@ mod generate;
 
 mod model;
 mod oracle;
-mod typed;
 
 use sim::heap::{self, Policy};
 use sim::runner::{Stats, Tier, World, main_for};
